@@ -112,6 +112,17 @@ func newStringError(pos ast.Pos, err string) error {
 	return &Error{Message: err, Pos: pos.Position()}
 }
 
+// isTypeValue reports whether rv is a type, as returned by make(type ...): a pointer to its Go
+// type descriptor. It is never dereferenced: a copy of the descriptor is not a type, and the
+// runtime dies when the copy is used as one.
+func isTypeValue(rv reflect.Value) bool {
+	if !rv.IsValid() || !rv.CanInterface() {
+		return false
+	}
+	_, ok := rv.Interface().(reflect.Type)
+	return ok
+}
+
 // heldValue returns rv itself, or a copy of it when rv is an addressable element or field:
 // a value that is kept for later must not change when the place it was read from is assigned.
 func heldValue(rv reflect.Value) reflect.Value {
